@@ -863,14 +863,15 @@ theorem evaluate_expression_sound {α : Type} (I : Interp α) (ss : List St) (e 
     rw [evaluator_is_eval_under_mapping]
     exact expandBack_sound I ss e r0 _ hp
 
-/-- **`{**inits, **given}` is "given over inits" by name — when `given` is keyed by strings**. -/
+/-- `{**inits, **given}` is "given over inits" by name when `given` is keyed by strings
+    (what held of evaluate_expression before 20af928, and the core of the current code). -/
 theorem merged_mapping_str_keys (inits : List (Sym × Expr)) (given : PMap)
     (hs : ∀ p ∈ given, p.1.isStr = true) (n : Sym) :
-    (mergedMapping inits (some given)).value n =
+    (mergedMappingOld inits (some given)).value n =
       match given.value n with
       | some v => some v
       | none => (initsMap inits).value n := by
-  simp only [mergedMapping, pyMerge]
+  simp only [mergedMappingOld, pyMerge]
   rw [PMap.value_append, merged_base_value, PMap.atKey_str given hs]
   cases hb : (initsMap inits).value n with
   | some v0 => cases hg : given.value n <;> simp
@@ -879,17 +880,51 @@ theorem merged_mapping_str_keys (inits : List (Sym × Expr)) (given : PMap)
     rw [merged_rest_value inits given hs n hb]
     cases hg : given.value n <;> simp
 
-/-- **A symbol-keyed mapping is lost in the merge** (evaluate_expression as it is): the merged
-    mapping keeps the initial estimate in front of the caller's entry for the same name, and
-    `subs` lets the first entry win. -/
+/-- **evaluate_expression's mapping (since 20af928) is "given over inits" by NAME for every key
+    form**: for a mapping with one entry per parameter name — keyed by strings, sympy symbols,
+    `Expr` symbols or any mixture — the merged mapping gives each name the caller's value if there
+    is one and the initial estimate otherwise. -/
+theorem merged_mapping_by_name (inits : List (Sym × Expr)) (given : PMap)
+    (hnd : (given.map (fun p => p.1.name)).Nodup) (n : Sym) :
+    (mergedMapping inits (some given)).value n =
+      match given.value n with
+      | some v => some v
+      | none => (initsMap inits).value n := by
+  have := merged_mapping_str_keys inits (normalise given) (normalise_isStr given) n
+  simp only [mergedMappingOld] at this
+  simp only [mergedMapping]
+  rw [this, normalise_value given hnd n]
+
+/-- **evaluate_expression equals direct evaluation for every key form** (full statement, no
+    side-condition on the keys): the result is the expression after the statements, in the
+    environment where each parameter has the caller's value if given and its initial estimate
+    otherwise. -/
+theorem evaluate_expression_by_name {α : Type} (I : Interp α) (ss : List St) (e r : Expr)
+    (inits : List (Sym × Expr)) (given : PMap) (hnd : (given.map (fun p => p.1.name)).Nodup)
+    (h : evaluateExpression ss e (mergedMapping inits (some given)) = some r) (ρ : Env α) :
+    eval I ρ r = eval I (run I ss (overlay I ρ (given ++ initsMap inits))) e := by
+  rw [evaluate_expression_sound I ss e r _ h ρ]
+  congr 2
+  funext y
+  simp only [overlay, merged_mapping_by_name inits given hnd y, PMap.value_append]
+  cases given.value y <;> rfl
+
+/-- **The pre-repair merge lost symbol-keyed entries** (evaluate_expression before 20af928;
+    the change seeded as C07c put the same merge into every evaluator): the initial estimate
+    stays in front of the caller's entry for the same name and `subs` lets the first entry win.
+    The current mapping and the direct mapping give the caller's value. -/
 theorem merged_mapping_symbol_keys_witness :
     let inits : List (Sym × Expr) := [("TH", .lit 1)]
-    (mergedMapping inits (some [(Key.str "TH", .lit 5)])).value "TH" = some (.lit 5) ∧
-    (mergedMapping inits (some [(Key.symbol "TH", .lit 5)])).value "TH" = some (.lit 1) ∧
-    (mergedMapping inits (some [(Key.expr "TH", .lit 5)])).value "TH" = some (.lit 1) ∧
+    (mergedMappingOld inits (some [(Key.str "TH", .lit 5)])).value "TH" = some (.lit 5) ∧
+    (mergedMappingOld inits (some [(Key.symbol "TH", .lit 5)])).value "TH" = some (.lit 1) ∧
+    (mergedMappingOld inits (some [(Key.expr "TH", .lit 5)])).value "TH" = some (.lit 1) ∧
+    (mergedMapping inits (some [(Key.symbol "TH", .lit 5)])).value "TH" = some (.lit 5) ∧
+    (mergedMapping inits (some [(Key.expr "TH", .lit 5)])).value "TH" = some (.lit 5) ∧
     (directMapping inits (some [(Key.symbol "TH", .lit 5)])).value "TH" = some (.lit 5) ∧
+    eval IZ (fun _ => 0) (evalWith (mergedMappingOld inits (some [(Key.symbol "TH", .lit 5)]))
+      (.f2 "add" (.sym "TH") (.sym "W"))) = 1 ∧
     eval IZ (fun _ => 0) (evalWith (mergedMapping inits (some [(Key.symbol "TH", .lit 5)]))
-      (.f2 "add" (.sym "TH") (.sym "W"))) = 1 := by
+      (.f2 "add" (.sym "TH") (.sym "W"))) = 5 := by
   decide
 
 -- non-vacuity: str-, symbol- and Expr-keyed mappings in different orders denote the same values
